@@ -17,7 +17,9 @@ class C01(flow.Spec):
     rule = ("layer 1 (merge model vs the real extension): 2-3 real CRR databases doing local upserts/updates/deletes/re-inserts on "
             "two rows, every produced change record can be merged into any site any number of times in any order; after every "
             "operation the touched site's crsql_changes and table must equal the model's (records are inputs of the model, site-id "
-            "order is read from the run). layer 2 (cluster): 2-3 REAL agents, the harness is the network: local transactions "
+            "order is read from the run); oracle chk_spec: for every site, every row whose collection of produced-or-merged records "
+            "is well-formed must show exactly row_spec of that collection (the order-free specification the convergence theorems are "
+            "about, evaluated by the extracted Coq function on the real extension's final state). layer 2 (cluster): 2-3 REAL agents, the harness is the network: local transactions "
             "(multi-row, conflicting writes to the same cells from different nodes, deletes), broadcast delivery in order / "
             "reversed / with omissions / duplicated / cut in two chunks (first half only, or second half first), lossy and "
             "loss-free pairwise sync sessions (generate_sync -> compute_available_needs -> the real sync server -> "
@@ -28,7 +30,7 @@ class C01(flow.Spec):
     assumptions = ["cr-sqlite's merge is a binary extension: Model/Crdt.v is validated by differential testing (one data column, integer keys), not verified",
                    "site attribution of clock rows (which depends on merge order for equal-value ties and sentinel rows) is excluded from the convergence comparison, as in the property",
                    "fairness: after writes stop every pair of nodes completes loss-free sessions (the harness schedules them); peer choice by SWIM/RTT is not part of this check",
-                   "convergence is a theorem only in its CRDT-level parts (idempotence, independence of rows, monotone causal length, no value from nowhere); the cluster-level statement is checked on the real system, not proved"]
+                   "convergence is a theorem for the CRDT layer (same record set => same tables and versions, for every order and duplication; superseded records may be missing), under the well-formedness hypothesis wf (checked on the real record sets by chk_spec); the cluster-level statement (every node eventually holds the records) rests on C02-C08/C10 and is checked on the real system, not proved"]
 
     def cases(self, tier, seed):
         rnd = random.Random(seed)
@@ -102,6 +104,49 @@ class C01(flow.Spec):
         t.append(str(len(ops)))
         for o in ops:
             t += o
+        return [" ".join(t)]
+
+    def oracle_lines(self, case, impl_obs):
+        """the order-free specification (row_spec, extracted from Coq) judged on what the real
+        extension shows: per site, all records it produced or merged vs the rows of its last dump"""
+        if not case.startswith("crdtsim") or impl_obs.startswith(("ERR", "PANIC", "CRASH")):
+            return []
+        steps = impl_obs.split(" # ")
+        m = re.match(r"siteorder=(\S+)", steps[0])
+        order = [int(x) for x in m.group(1).split("<")]
+        rank = {name: i for i, name in enumerate(order)}
+        ns = int(case.split()[1])
+        recs = [[] for _ in range(ns)]
+        last = [None] * ns
+        for st in steps[1:]:
+            st = st.strip()
+            mm = re.match(r"([WG])(\d+) ", st)
+            if not mm:
+                return []
+            site = int(mm.group(2))
+            if mm.group(1) == "W":
+                rr = re.match(r"W\d+ recs=(\S*) ", st).group(1)
+                recs[site] += [x for x in rr.split(",") if x]
+            elif " skip " not in st:
+                recs[site].append(re.match(r"G\d+ \w+ rec=(\S+) ", st).group(1))
+            md = re.search(r"clk=(\S*) tbl=", st)
+            if md:
+                last[site] = md.group(1)
+        t = ["chk_spec", str(ns)]
+        for s_ in range(ns):
+            t.append(str(len(recs[s_])))
+            for r in recs[s_]:
+                t += rec_tokens(r, rank)
+            rows = {}
+            for e in [x for x in (last[s_] or "").split(",") if x]:
+                row, c, v, colv, cl, _site, _dbv, _seq = rec_tokens(e, rank)
+                ent = rows.setdefault(row, {"cl": cl, "col": None})
+                ent["cl"] = str(max(int(ent["cl"]), int(cl)))
+                if c == "T":
+                    ent["col"] = (v, colv)
+            t.append(str(len(rows)))
+            for row, ent in sorted(rows.items(), key=lambda kv: int(kv[0])):
+                t += [row, ent["cl"], "1" if ent["col"] else "0", ent["col"][0] if ent["col"] else "0", ent["col"][1] if ent["col"] else "0"]
         return [" ".join(t)]
 
     def impl_verdict(self, case, impl_obs):
